@@ -105,7 +105,7 @@ def leaf_kinds(T, acc):
             leaf_kinds(f[1], acc)
         for b in _bases(T):
             leaf_kinds(b, acc)
-    elif tag == "newtype":
+    elif tag in ("newtype", "fwd"):
         leaf_kinds(T[2], acc)
     elif tag == "utuple":
         for e in T[1]:
